@@ -293,3 +293,77 @@ fn transcode_mon_d1() {
 	unsafe { DMAX = 1; }
 	transcode_mon_d2();
 }
+
+// ---- D1a: every scalar kind the transcoder implements, one event, all values
+struct ScalarDe { kind: u8, a: u128, s: [u8; 2], n: usize }
+impl<'de> Deserializer<'de> for ScalarDe {
+	type Error = DErr;
+	fn deserialize_any<V: de::Visitor<'de>>(self, v: V) -> Result<V::Value, DErr> {
+		let a = self.a;
+		match self.kind {
+			0 => v.visit_unit(),
+			1 => v.visit_bool(a & 1 == 1),
+			2 => v.visit_i8(a as i8), 3 => v.visit_i16(a as i16), 4 => v.visit_i32(a as i32), 5 => v.visit_i64(a as i64), 6 => v.visit_i128(a as i128),
+			7 => v.visit_u8(a as u8), 8 => v.visit_u16(a as u16), 9 => v.visit_u32(a as u32), 10 => v.visit_u64(a as u64), 11 => v.visit_u128(a),
+			12 => v.visit_f32(f32::from_bits(a as u32)), 13 => v.visit_f64(f64::from_bits(a as u64)),
+			14 => v.visit_char(char::from_u32((a as u32) % 0xD800).unwrap()),
+			15 => v.visit_str(if self.n == 0 { "" } else if self.s[0] < 0x80 { core::str::from_utf8(&self.s[..1]).unwrap() } else { "\u{e9}" }),
+			_ => v.visit_bytes(&self.s[..self.n]),
+		}
+	}
+	serde::forward_to_deserialize_any! {
+		bool i8 i16 i32 i64 i128 u8 u16 u32 u64 u128 f32 f64 char str string
+		bytes byte_buf option unit unit_struct newtype_struct seq tuple
+		tuple_struct map struct enum identifier ignored_any
+	}
+}
+struct ScalarSer { kind: u8, a: u128, s: [u8; 2], n: usize }
+macro_rules! exp { ($self:ident, $k:expr, $cond:expr) => {{ assert!($self.kind == $k); assert!($cond); Ok(()) }} }
+impl Serializer for ScalarSer {
+	type Ok = (); type Error = SErr;
+	type SerializeSeq = Impossible<(), SErr>; type SerializeTuple = Impossible<(), SErr>; type SerializeTupleStruct = Impossible<(), SErr>;
+	type SerializeTupleVariant = Impossible<(), SErr>; type SerializeMap = Impossible<(), SErr>; type SerializeStruct = Impossible<(), SErr>; type SerializeStructVariant = Impossible<(), SErr>;
+	fn serialize_bool(self, v: bool) -> Result<(), SErr> { exp!(self, 1, v == (self.a & 1 == 1)) }
+	fn serialize_i8(self, v: i8) -> Result<(), SErr> { exp!(self, 2, v == self.a as i8) }
+	fn serialize_i16(self, v: i16) -> Result<(), SErr> { exp!(self, 3, v == self.a as i16) }
+	fn serialize_i32(self, v: i32) -> Result<(), SErr> { exp!(self, 4, v == self.a as i32) }
+	fn serialize_i64(self, v: i64) -> Result<(), SErr> { exp!(self, 5, v == self.a as i64) }
+	fn serialize_i128(self, v: i128) -> Result<(), SErr> { exp!(self, 6, v == self.a as i128) }
+	fn serialize_u8(self, v: u8) -> Result<(), SErr> { exp!(self, 7, v == self.a as u8) }
+	fn serialize_u16(self, v: u16) -> Result<(), SErr> { exp!(self, 8, v == self.a as u16) }
+	fn serialize_u32(self, v: u32) -> Result<(), SErr> { exp!(self, 9, v == self.a as u32) }
+	fn serialize_u64(self, v: u64) -> Result<(), SErr> { exp!(self, 10, v == self.a as u64) }
+	fn serialize_u128(self, v: u128) -> Result<(), SErr> { exp!(self, 11, v == self.a) }
+	fn serialize_f32(self, v: f32) -> Result<(), SErr> { exp!(self, 12, v.to_bits() == self.a as u32) }
+	fn serialize_f64(self, v: f64) -> Result<(), SErr> { exp!(self, 13, v.to_bits() == self.a as u64) }
+	fn serialize_char(self, v: char) -> Result<(), SErr> { exp!(self, 14, v as u32 == (self.a as u32) % 0xD800) }
+	fn serialize_str(self, v: &str) -> Result<(), SErr> { exp!(self, 15, if self.n == 0 { v.is_empty() } else if self.s[0] < 0x80 { v.len() == 1 && v.as_bytes()[0] == self.s[0] } else { v.len() == 2 }) }
+	fn serialize_bytes(self, v: &[u8]) -> Result<(), SErr> { exp!(self, 16, v.len() == self.n && (self.n < 1 || v[0] == self.s[0]) && (self.n < 2 || v[1] == self.s[1])) }
+	fn serialize_none(self) -> Result<(), SErr> { unreachable!() }
+	fn serialize_some<T: ?Sized + Serialize>(self, _: &T) -> Result<(), SErr> { unreachable!() }
+	fn serialize_unit(self) -> Result<(), SErr> { exp!(self, 0, true) }
+	fn serialize_unit_struct(self, _: &'static str) -> Result<(), SErr> { unreachable!() }
+	fn serialize_unit_variant(self, _: &'static str, _: u32, _: &'static str) -> Result<(), SErr> { unreachable!() }
+	fn serialize_newtype_struct<T: ?Sized + Serialize>(self, _: &'static str, _: &T) -> Result<(), SErr> { unreachable!() }
+	fn serialize_newtype_variant<T: ?Sized + Serialize>(self, _: &'static str, _: u32, _: &'static str, _: &T) -> Result<(), SErr> { unreachable!() }
+	fn serialize_seq(self, _: Option<usize>) -> Result<Self::SerializeSeq, SErr> { unreachable!() }
+	fn serialize_tuple(self, _: usize) -> Result<Self::SerializeTuple, SErr> { unreachable!() }
+	fn serialize_tuple_struct(self, _: &'static str, _: usize) -> Result<Self::SerializeTupleStruct, SErr> { unreachable!() }
+	fn serialize_tuple_variant(self, _: &'static str, _: u32, _: &'static str, _: usize) -> Result<Self::SerializeTupleVariant, SErr> { unreachable!() }
+	fn serialize_map(self, _: Option<usize>) -> Result<Self::SerializeMap, SErr> { unreachable!() }
+	fn serialize_struct(self, _: &'static str, _: usize) -> Result<Self::SerializeStruct, SErr> { unreachable!() }
+	fn serialize_struct_variant(self, _: &'static str, _: u32, _: &'static str, _: usize) -> Result<Self::SerializeStructVariant, SErr> { unreachable!() }
+}
+
+#[kani::proof]
+#[kani::unwind(4)]
+fn transcode_every_scalar_kind() {
+	let kind: u8 = kani::any();
+	kani::assume(kind <= 16);
+	let a: u128 = kani::any();
+	let s: [u8; 2] = kani::any();
+	let n: usize = kani::any();
+	kani::assume(n <= 2);
+	let r = transcode(ScalarSer { kind, a, s, n }, ScalarDe { kind, a, s, n });
+	assert!(r.is_ok());
+}
